@@ -36,25 +36,25 @@ open LiquidVerif.Gen.SharedState (Entry Kind Written)
   any other: tag and filter registers written only by `add_tag`/`add_filter`), `_NULL` and `TokenStream.eof`
   (immutable sentinels), `builtin` (the tag/filter registrar, stateless). -/
 def pinned : List Entry := [
-  { file := "liquid/__init__.py", name := "DEFAULT_ENVIRONMENT", kind := .instance, shape := "Environment", keys := [], maxsize := 0, unbounded := false, written := .never },
-  { file := "liquid/analyze_tags.py", name := "DEFAULT_INNER_TAG_MAP", kind := .container, shape := "dict", keys := [], maxsize := 0, unbounded := false, written := .never },
-  { file := "liquid/builtin/expressions/filtered.py", name := "FILTER_TOKENS", kind := .container, shape := "set", keys := [], maxsize := 0, unbounded := false, written := .never },
-  { file := "liquid/builtin/expressions/logical.py", name := "PRECEDENCES", kind := .container, shape := "dict", keys := [], maxsize := 0, unbounded := false, written := .never },
-  { file := "liquid/builtin/expressions/logical.py", name := "_INFIX_OPERATORS", kind := .container, shape := "dict", keys := [], maxsize := 0, unbounded := false, written := .never },
-  { file := "liquid/builtin/filters/array.py", name := "_NULL", kind := .instance, shape := "_Null", keys := [], maxsize := 0, unbounded := false, written := .never },
-  { file := "liquid/builtin/filters/extra.py", name := "_ESCAPE_MAP", kind := .container, shape := "dict", keys := [], maxsize := 0, unbounded := false, written := .atImport },
-  { file := "liquid/context.py", name := "builtin", kind := .instance, shape := "BuiltIn", keys := [], maxsize := 0, unbounded := false, written := .never },
-  { file := "liquid/environment.py", name := "get_implicit_environment", kind := .memo, shape := "lru_cache", keys := ["extra", "tag_start_string", "tag_end_string", "statement_start_string", "statement_end_string", "tolerance", "loader", "undefined", "strict_filters", "autoescape", "globals", "template_comments", "comment_start_string", "comment_end_string"], maxsize := 10, unbounded := false, written := .call },
-  { file := "liquid/exceptions.py", name := "WARNINGS", kind := .container, shape := "dict", keys := [], maxsize := 0, unbounded := false, written := .never },
-  { file := "liquid/extra/filters/babel.py", name := "DateTime.formats", kind := .container, shape := "dict", keys := [], maxsize := 0, unbounded := false, written := .never },
-  { file := "liquid/extra/tags/macro_tag.py", name := "CallNode.disabled_tags", kind := .container, shape := "list", keys := [], maxsize := 0, unbounded := false, written := .never },
-  { file := "liquid/lex.py", name := "get_lexer", kind := .memo, shape := "lru_cache", keys := ["tag_start_string", "tag_end_string", "statement_start_string", "statement_end_string", "comment_start_string", "comment_end_string"], maxsize := 128, unbounded := false, written := .call },
-  { file := "liquid/messages.py", name := "DEFAULT_COMMENT_TAGS", kind := .container, shape := "list", keys := [], maxsize := 0, unbounded := false, written := .never },
-  { file := "liquid/messages.py", name := "DEFAULT_KEYWORDS", kind := .container, shape := "dict", keys := [], maxsize := 0, unbounded := false, written := .never },
-  { file := "liquid/parser.py", name := "get_parser", kind := .memo, shape := "lru_cache", keys := ["env"], maxsize := 128, unbounded := false, written := .call },
-  { file := "liquid/stream.py", name := "TokenStream.eof", kind := .instance, shape := "Token", keys := [], maxsize := 0, unbounded := false, written := .never },
-  { file := "liquid/token.py", name := "operators", kind := .container, shape := "dict", keys := [], maxsize := 0, unbounded := false, written := .never },
-  { file := "liquid/token.py", name := "reverse_operators", kind := .container, shape := "dict", keys := [], maxsize := 0, unbounded := false, written := .never }
+  { file := "liquid/__init__.py", name := "DEFAULT_ENVIRONMENT", kind := .instance, shape := "Environment", keys := [], written := .never },
+  { file := "liquid/analyze_tags.py", name := "DEFAULT_INNER_TAG_MAP", kind := .container, shape := "dict", keys := [], written := .never },
+  { file := "liquid/builtin/expressions/filtered.py", name := "FILTER_TOKENS", kind := .container, shape := "set", keys := [], written := .never },
+  { file := "liquid/builtin/expressions/logical.py", name := "PRECEDENCES", kind := .container, shape := "dict", keys := [], written := .never },
+  { file := "liquid/builtin/expressions/logical.py", name := "_INFIX_OPERATORS", kind := .container, shape := "dict", keys := [], written := .never },
+  { file := "liquid/builtin/filters/array.py", name := "_NULL", kind := .instance, shape := "_Null", keys := [], written := .never },
+  { file := "liquid/builtin/filters/extra.py", name := "_ESCAPE_MAP", kind := .container, shape := "dict", keys := [], written := .atImport },
+  { file := "liquid/context.py", name := "builtin", kind := .instance, shape := "BuiltIn", keys := [], written := .never },
+  { file := "liquid/environment.py", name := "get_implicit_environment", kind := .memo, shape := "lru_cache", keys := ["extra", "tag_start_string", "tag_end_string", "statement_start_string", "statement_end_string", "tolerance", "loader", "undefined", "strict_filters", "autoescape", "globals", "template_comments", "comment_start_string", "comment_end_string"], written := .call },
+  { file := "liquid/exceptions.py", name := "WARNINGS", kind := .container, shape := "dict", keys := [], written := .never },
+  { file := "liquid/extra/filters/babel.py", name := "DateTime.formats", kind := .container, shape := "dict", keys := [], written := .never },
+  { file := "liquid/extra/tags/macro_tag.py", name := "CallNode.disabled_tags", kind := .container, shape := "list", keys := [], written := .never },
+  { file := "liquid/lex.py", name := "get_lexer", kind := .memo, shape := "lru_cache", keys := ["tag_start_string", "tag_end_string", "statement_start_string", "statement_end_string", "comment_start_string", "comment_end_string"], written := .call },
+  { file := "liquid/messages.py", name := "DEFAULT_COMMENT_TAGS", kind := .container, shape := "list", keys := [], written := .never },
+  { file := "liquid/messages.py", name := "DEFAULT_KEYWORDS", kind := .container, shape := "dict", keys := [], written := .never },
+  { file := "liquid/parser.py", name := "get_parser", kind := .memo, shape := "lru_cache", keys := ["env"], written := .call },
+  { file := "liquid/stream.py", name := "TokenStream.eof", kind := .instance, shape := "Token", keys := [], written := .never },
+  { file := "liquid/token.py", name := "operators", kind := .container, shape := "dict", keys := [], written := .never },
+  { file := "liquid/token.py", name := "reverse_operators", kind := .container, shape := "dict", keys := [], written := .never }
 ]
 
 /-- **every** piece of process-wide state in liquid/ is in the classified list -/
@@ -67,17 +67,17 @@ theorem no_container_written_by_a_function :
 /-- no function rebinds a module global -/
 theorem no_global_rebinding : ∀ e ∈ LiquidVerif.Gen.SharedState.entries, e.kind ≠ .rebinding := by decide
 
-/-- the memoised functions are exactly these three, with these key parameters and bounds -/
+/-- the memoised functions are exactly these three, with these key parameters -/
 theorem memos_are :
     LiquidVerif.Gen.SharedState.memos =
       [("liquid/environment.py", "get_implicit_environment",
           ["extra", "tag_start_string", "tag_end_string", "statement_start_string", "statement_end_string",
            "tolerance", "loader", "undefined", "strict_filters", "autoescape", "globals", "template_comments",
-           "comment_start_string", "comment_end_string"], 10),
+           "comment_start_string", "comment_end_string"]),
        ("liquid/lex.py", "get_lexer",
           ["tag_start_string", "tag_end_string", "statement_start_string", "statement_end_string",
-           "comment_start_string", "comment_end_string"], 128),
-       ("liquid/parser.py", "get_parser", ["env"], 128)] := by decide
+           "comment_start_string", "comment_end_string"]),
+       ("liquid/parser.py", "get_parser", ["env"])] := by decide
 
 /-! ## Memo transparency -/
 
